@@ -15,7 +15,7 @@ def parseRoutes : List (List UInt8 × Bool) := [([114, 111, 117, 116, 101, 95, 1
 /-- `parseRoutes`: ReadOr call sites (column, literal default; none = computed default) -/
 def parseRoutes_readOr : List (List UInt8 × Option (List UInt8)) := [([114, 111, 117, 116, 101, 95, 99, 111, 108, 111, 114], some [70, 70, 70, 70, 70, 70]), ([114, 111, 117, 116, 101, 95, 116, 101, 120, 116, 95, 99, 111, 108, 111, 114], some [48, 48, 48, 48, 48, 48]), ([99, 111, 110, 116, 105, 110, 117, 111, 117, 115, 95, 112, 105, 99, 107, 117, 112], some []), ([99, 111, 110, 116, 105, 110, 117, 111, 117, 115, 95, 100, 114, 111, 112, 95, 111, 102, 102], some [])]
 /-- `parseRoutes`: decoder applied directly to a column read -/
-def parseRoutes_decoders : List (List UInt8 × String) := [([114, 111, 117, 116, 101, 95, 116, 121, 112, 101], "parseRouteType_GTFSStatic"), ([114, 111, 117, 116, 101, 95, 115, 111, 114, 116, 95, 111, 114, 100, 101, 114], "parseInt32"), ([99, 111, 110, 116, 105, 110, 117, 111, 117, 115, 95, 112, 105, 99, 107, 117, 112], "parsePickupDropOffPolicy"), ([99, 111, 110, 116, 105, 110, 117, 111, 117, 115, 95, 100, 114, 111, 112, 95, 111, 102, 102], "parsePickupDropOffPolicy")]
+def parseRoutes_decoders : List (List UInt8 × String) := [([114, 111, 117, 116, 101, 95, 116, 121, 112, 101], "parseRouteType_GTFSStatic"), ([114, 111, 117, 116, 101, 95, 115, 111, 114, 116, 95, 111, 114, 100, 101, 114], "parseRouteSortOrder"), ([99, 111, 110, 116, 105, 110, 117, 111, 117, 115, 95, 112, 105, 99, 107, 117, 112], "parsePickupDropOffPolicy"), ([99, 111, 110, 116, 105, 110, 117, 111, 117, 115, 95, 100, 114, 111, 112, 95, 111, 102, 102], "parsePickupDropOffPolicy")]
 /-- `parseRoutes` checks for missing required columns before reading rows -/
 def parseRoutes_checksMissingColumns : Bool := true
 
